@@ -226,4 +226,28 @@ def sortEntries : List Entry → List Entry
   | [] => []
   | x :: xs => insertEntry x (sortEntries xs)
 
+/-! ### order-free encoding of an output that covers every index (symbolic tie at fixed shapes)
+
+For every source index: the key of its target (`0` = none, `j + 1`) and the reported affinity;
+for every target index the key of its source.  On outputs that mention every index exactly once
+the encoding determines the output up to order. -/
+
+def optKey : Option Nat → Rat
+  | none => 0
+  | some i => (i + 1 : Nat)
+
+def encodeOut (n m : Nat) (out : List Entry) : List Rat :=
+  ((List.range n).flatMap fun i =>
+    match out.find? (fun e => e.src == some i) with
+    | some e => [optKey e.tgt, e.aff]
+    | none => [-1, -1])
+  ++ ((List.range m).map fun j =>
+    match out.find? (fun e => e.tgt == some j) with
+    | some e => optKey e.src
+    | none => -1)
+
+def encodeResult (n m : Nat) : Except LoopErr (List Entry) → Option (List Rat)
+  | .ok out => some (encodeOut n m out)
+  | .error _ => none
+
 end SE.Matching
